@@ -26,6 +26,23 @@ struct TypeRefPatcher<'a> {
 
 impl TypeRefPatcher<'_> {
     fn compute_patches(&mut self, ast: &Ast) {
+        // Aliases of anonymous types (sequences, dictionaries, results) can reference themselves through that type.
+        // Such an alias has no finite definition, so we reject it here (cycles that only go through other aliases are
+        // detected later, when the aliases are resolved).
+        for node in ast.as_slice() {
+            let Node::TypeAlias(type_alias_ptr) = node else { continue };
+            let type_alias = type_alias_ptr.borrow();
+            let is_anonymous = matches!(&type_alias.underlying.definition, TypeRefDefinition::Patched(_));
+            if is_anonymous && Self::does_type_reference_alias(&type_alias.underlying, type_alias, ast, &mut Vec::new()) {
+                Diagnostic::new(Error::SelfReferentialTypeAliasNeedsConcreteType {
+                    identifier: type_alias.module_scoped_identifier(),
+                })
+                .set_span(type_alias.span())
+                .add_note("failed to resolve type due to a cycle in its definition", None)
+                .push_into(self.diagnostics);
+            }
+        }
+
         for node in ast.as_slice() {
             let patch = match node {
                 Node::Field(field_ptr) => {
@@ -194,6 +211,37 @@ impl TypeRefPatcher<'_> {
                     .set_span(identifier.span())
                     .push_into(self.diagnostics);
                 None
+            }
+        }
+    }
+
+    /// Returns true if the provided type (or any type nested within it) references the specified type alias,
+    /// either directly or through other type aliases. `seen_aliases` is used to avoid revisiting type aliases.
+    fn does_type_reference_alias(type_ref: &TypeRef, target: &TypeAlias, ast: &Ast, seen_aliases: &mut Vec<String>) -> bool {
+        match &type_ref.definition {
+            TypeRefDefinition::Patched(ptr) => {
+                let mut check = |nested: &TypeRef| Self::does_type_reference_alias(nested, target, ast, seen_aliases);
+                match ptr.borrow().concrete_type() {
+                    Types::Sequence(sequence) => check(&sequence.element_type),
+                    Types::Dictionary(dictionary) => check(&dictionary.key_type) || check(&dictionary.value_type),
+                    Types::ResultType(result_type) => check(&result_type.success_type) || check(&result_type.failure_type),
+                    _ => false,
+                }
+            }
+            TypeRefDefinition::Unpatched(identifier) => {
+                let node = ast.find_node_with_scope(&identifier.value, type_ref.module_scope());
+                let Ok(Node::TypeAlias(type_alias_ptr)) = node else { return false };
+                let type_alias = type_alias_ptr.borrow();
+                if std::ptr::eq(type_alias, target) {
+                    return true;
+                }
+
+                let type_alias_id = type_alias.module_scoped_identifier();
+                if seen_aliases.contains(&type_alias_id) {
+                    return false;
+                }
+                seen_aliases.push(type_alias_id);
+                Self::does_type_reference_alias(&type_alias.underlying, target, ast, seen_aliases)
             }
         }
     }
